@@ -81,7 +81,7 @@ CLAIMS = {
                 "C10_iban_formatted (groups of four joined by single spaces; parses back, for every IBAN object), "
                 "C10_bic_formatted (parts joined by single spaces; parses back, for every BIC of length 8 or 11 — for other lengths of "
                 "unvalidated BICs the round trip is false, e.g. 'GENOD', so the clause is stated for accepted lengths). Environment laws "
-                "(env_wf: upper() outputs are non-space upper fixpoints) are discharged by vm_compute on the interpreter's tables.",
+                "(env_wf: upper() outputs are non-space upper fixpoints) are discharged by vm_compute on the interpreter's tables. C10_generate_arguments: IBAN.generate reads its component arguments through clean() only (apart from the raw emptiness of the branch code), so white space and case in them do not matter; stream spec_variant_same_api asks generate and from_components with variant arguments (the bank-code lookups take their key as it is).",
         "note": COMMON_NOTE,
         "technique": "Coq proof (list lemmas over filter/flat_map, finite environment check by vm_compute) + correspondence",
         "design_ref": "DESIGN.md §4 C10",
